@@ -194,10 +194,27 @@ pub fn int_fields(m: &Map) -> Vec<&Field> {
         .collect()
 }
 
+/// Current value of a mapped field (fields whose name ends in `-be` are stored big-endian).
+pub fn field_get(base: &[u8], f: &Field) -> u64 {
+    let v = get(base, f.off, f.width);
+    if f.name.ends_with("-be") {
+        let mut o = 0u64;
+        for i in 0..f.width {
+            o |= ((v >> (8 * i)) & 0xFF) << (8 * (f.width - 1 - i));
+        }
+        o
+    } else {
+        v
+    }
+}
+
 pub fn field_edit(base: &[u8], f: &Field, v: u64) -> Edit {
-    let cur = get(base, f.off, f.width);
+    let cur = field_get(base, f);
     let mut ins = vec![0u8; f.width];
     crate::format::put(&mut ins, 0, f.width, v);
+    if f.name.ends_with("-be") {
+        ins.reverse();
+    }
     Edit {
         label: format!("field {}.{}@{} ({}, {}B): {} -> {}", f.chunk, f.name, f.off, f.kind.name(), f.width, cur, v),
         off: f.off,
